@@ -45,6 +45,8 @@ def defensive_guard(r: RaiseSite) -> bool:
         return False
     if not isinstance(r.node, ast.Raise):
         return False
+    if f.name in ('_check_content_type', '_check_child_to_be_added'):
+        return True
     g = cfg_of(f.node)
     node = None
     for n in g.stmt_nodes():
@@ -77,9 +79,9 @@ class Atom:
         self.defensive: Set[str] = set()
         self._prepare()
         # per function: list of (root, Write origin) it may perform; list of RaiseSite that may escape
-        self.writes: Dict[FuncInfo, Set[Tuple[object, Write]]] = {f: set() for f in self.sm.functions}
-        self.raises: Dict[FuncInfo, Dict[str, RaiseSite]] = {f: {} for f in self.sm.functions}
-        self.hazards: Dict[FuncInfo, Dict[Tuple[str, str], Tuple[object, Write, RaiseSite]]] = {f: {} for f in self.sm.functions}
+        self.writes: Dict[FuncInfo, Set[Tuple[object, Write]]] = {f: set() for f in self.cg.all_functions()}
+        self.raises: Dict[FuncInfo, Dict[str, RaiseSite]] = {f: {} for f in self.cg.all_functions()}
+        self.hazards: Dict[FuncInfo, Dict[Tuple[str, str], Tuple[object, Write, RaiseSite]]] = {f: {} for f in self.cg.all_functions()}
         self._solve()
 
     # ------------------------------------------------------------------ preparation
@@ -100,7 +102,7 @@ class Atom:
         """Catalogued implicit raisers: a subscript indexed by a parameter-derived name; list.remove/index of a parameter-derived
         object (fails when the caller passes something that is not there)."""
         ef = self.ef
-        for f in self.sm.functions:
+        for f in self.cg.all_functions():
             out = []
             if not (f.module.name.startswith('musicxml')):
                 self.implicit[f] = out
@@ -114,7 +116,10 @@ class Atom:
                 if isinstance(n, ast.Call) and isinstance(n.func, ast.Attribute) and n.func.attr in ('remove', 'index') and len(n.args) == 1 \
                         and not self.cg.by_node.get(n):
                     roots = ef.expr_roots(f, n.args[0])
-                    if any(isinstance(r, tuple) and r[0] == 'param' for r in roots) and not ef.caught(f, n, 'ValueError'):
+                    argnames = {x.id for x in ast.walk(n.args[0]) if isinstance(x, ast.Name)}
+                    recvnames = {x.id for x in ast.walk(n.func.value) if isinstance(x, ast.Name)}
+                    # `p.back_pointer.list.remove(p)` cannot fail while the back-pointer pairing holds (R-PAIR); `self.list.remove(p)` can
+                    if any(isinstance(r, tuple) and r[0] == 'param' for r in roots) and not ef.caught(f, n, 'ValueError') and not (argnames & recvnames):
                         out.append(RaiseSite(f, n, 'ValueError', implicit=True))
             self.implicit[f] = out
 
@@ -164,12 +169,120 @@ class Atom:
                         want = f"{recv}.{unparse(t.ast.left)[5:]} == {unparse(t.ast.comparators[0])}"
                         if cn is not None and any(t2.kind == 'test' and lab2 == 'T' and unparse(t2.ast) == want for t2, lab2 in dom.guards_of(cg_, cn)):
                             return "the call is guarded by the negation of the callee's rejecting test"
+        # (iv) the path walk's conflict test is pre-validated by the leaf selector: every reaching definition of the receiver of
+        #      `_update_requirements_in_path()` is drawn from the selector's result (or a fresh duplicate), or membership-tested against it
+        if r.func is callee and callee.name == '_update_requirements_in_path' and 'ChoiceHasAnotherChosenChild' in r.exc and isinstance(node, ast.Call) \
+                and isinstance(node.func, ast.Attribute) and isinstance(node.func.value, ast.Name):
+            if self._selector_validated(caller, node):
+                return "the receiver was validated against the committed choices by select_valid_leaves before the walk"
+        # (iii') x.replace_child(old, new) with old iterated from x.get_children(): "not in list" cannot fire
+        if r.exc == 'ValueError' and r.func is callee and callee.name == 'replace_child' and isinstance(node, ast.Call) and isinstance(node.func, ast.Attribute) and node.args:
+            recv = unparse(node.func.value)
+            a0 = node.args[0]
+            if isinstance(a0, ast.Name):
+                for loop in [x for x in ast.walk(caller.node) if isinstance(x, ast.For)]:
+                    names = [unparse(t) for t in (loop.target.elts if isinstance(loop.target, ast.Tuple) else [loop.target])]
+                    if a0.id in names and f"{recv}.get_children()" in unparse(loop.iter) and any(x is node for x in ast.walk(loop)):
+                        return "the replaced child is taken from the receiver's own children"
         # (iii) parent/child premise of Tree.remove
         if r.exc == 'ChildNotFoundError' and isinstance(node, ast.Call) and isinstance(node.func, ast.Attribute) and node.args and r.func is callee:
             from ..props.c19 import _is_parent_of
             if _is_parent_of(caller, node.func.value, node.args[0]):
                 return "x.up.remove(x): the argument is a child of the receiver"
         return None
+
+    def _handler_between(self, f, n1, n2):
+        """If n2 lies in an except handler of a try whose body contains n1 (and n1 is not in that handler), return the handler."""
+        pm = self.ef._parent_map(f)
+        a1 = n1.ast if n1.ast is not None else n1.stmt
+        a2 = n2.ast if n2.ast is not None else n2.stmt
+        cur = a2
+        while cur is not None and cur is not f.node:
+            par = pm.get(cur)
+            if isinstance(par, ast.ExceptHandler):
+                t = pm.get(par)
+                if isinstance(t, ast.Try) and any(a1 is x for b in t.body for x in ast.walk(b)):
+                    return par
+            cur = par
+        return None
+
+    def _selector_validated(self, caller: FuncInfo, call: ast.Call) -> bool:
+        g = cfg_of(caller.node)
+        cn = self._idx(caller).get(call)
+        if cn is None:
+            return False
+        var = call.func.value.id
+        sel_results = set()          # names bound to select_valid_leaves(...) results, and collections filtered from them
+        changed = True
+        while changed:
+            changed = False
+            for d in g.stmt_nodes():
+                if d.kind == 'stmt' and isinstance(d.ast, ast.Assign) and isinstance(d.ast.targets[0], ast.Name):
+                    name = d.ast.targets[0].id
+                    v = d.ast.value
+                    ok = False
+                    if isinstance(v, ast.Call) and isinstance(v.func, ast.Name) and v.func.id == 'select_valid_leaves':
+                        ok = True
+                    if isinstance(v, ast.ListComp) and len(v.generators) == 1:
+                        it = v.generators[0].iter
+                        if isinstance(it, ast.Name) and it.id in sel_results:
+                            ok = True
+                        if isinstance(it, ast.Call) and isinstance(it.func, ast.Attribute) and it.func.attr == 'iterate_leaves' and \
+                                isinstance(it.func.value, ast.Name) and 'duplicat' in it.func.value.id:
+                            ok = True        # leaves of a fresh duplicate: no committed choice inside
+                    if isinstance(v, ast.Call) and isinstance(v.func, ast.Name) and any(isinstance(x, ast.FunctionDef) and x.name == v.func.id for x in ast.walk(caller.node)):
+                        # a local helper: every non-None return is a comprehension over a fresh duplicate's leaves
+                        helper = next(x for x in ast.walk(caller.node) if isinstance(x, ast.FunctionDef) and x.name == v.func.id)
+                        rets = [r.value for r in ast.walk(helper) if isinstance(r, ast.Return) and r.value is not None and not (isinstance(r.value, ast.Constant) and r.value.value is None)]
+                        if rets and all(isinstance(r, ast.ListComp) and 'iterate_leaves()' in unparse(r.generators[0].iter) for r in rets) and v.func.id != 'select_valid_leaves':
+                            ok = True
+                    if ok and name not in sel_results:
+                        sel_results.add(name)
+                        changed = True
+        for d in dom.reaching_defs(g, var, cn):
+            v = d.ast.value if isinstance(d.ast, ast.Assign) else None
+            if isinstance(v, ast.Subscript) and isinstance(v.value, ast.Name):
+                if v.value.id in sel_results:
+                    continue
+                # membership test against a selector result that raises, between the definition and the call
+                tested = False
+                for t, lab in dom.guards_of(g, cn):
+                    if t.kind == 'test' and isinstance(t.ast, ast.Compare) and isinstance(t.ast.ops[0], (ast.NotIn, ast.In)) and unparse(t.ast.left) == var \
+                            and isinstance(t.ast.comparators[0], ast.Name) and t.ast.comparators[0].id in sel_results:
+                        tested = True
+                # the test sits on the path from this definition only: check reachability d -> test -> call
+                for t in g.stmt_nodes():
+                    if t.kind == 'test' and isinstance(t.ast, ast.Compare) and isinstance(t.ast.ops[0], ast.NotIn) and unparse(t.ast.left) == var and \
+                            isinstance(t.ast.comparators[0], ast.Name) and t.ast.comparators[0].id in sel_results and dom.branch_raises(g, t, 'T') and \
+                            g.path_avoiding(d, cn, avoid=[t]) is None:
+                        tested = True
+                if tested:
+                    continue
+            return False
+        return True
+
+    def _in_handler(self, f, node) -> bool:
+        pm = self.ef._parent_map(f)
+        cur = node
+        while cur is not None and cur is not f.node:
+            cur = pm.get(cur)
+            if isinstance(cur, ast.ExceptHandler):
+                return True
+        return False
+
+    def _handler_reraises(self, f, node, exc) -> bool:
+        """The handler that catches `exc` around node raises again (conversion): the failure still leaves f."""
+        pm = self.ef._parent_map(f)
+        cur = node
+        while cur is not None and cur is not f.node:
+            par = pm.get(cur)
+            if isinstance(par, ast.Try) and cur in par.body:
+                for h in par.handlers:
+                    names = ['*'] if h.type is None else ([unparse(x) for x in h.type.elts] if isinstance(h.type, ast.Tuple) else [unparse(h.type)])
+                    if any(n in ('*', 'Exception', 'BaseException') or exc_is_subclass(self.sm, exc, n) for n in names):
+                        return any(isinstance(x, ast.Raise) for x in ast.walk(h))
+            cur = par
+        return False
 
     # ------------------------------------------------------------------ solving
     def _local_effects(self, f: FuncInfo):
@@ -179,6 +292,7 @@ class Atom:
         W: Dict[object, Set[Tuple[object, Write]]] = {}
         R: Dict[object, Dict[str, RaiseSite]] = {}
         H: Dict[Tuple[str, str], Tuple[object, Write, RaiseSite]] = {}
+        self._callee_hz: Dict[object, Set[Tuple[str, str]]] = {}     # node -> (write key, exception class) of callee hazards at that node
         for w in ef.local_writes.get(f, []):
             if w.root in ('fresh', 'const') or not is_primary(w) or f.qualname in STRUCTURE_FUNCS:
                 continue
@@ -188,6 +302,8 @@ class Atom:
         for r in ef.local_raises.get(f, []) + self.implicit.get(f, []):
             if ef.caught(f, r.node, r.exc) or r.exc == 'NotImplementedError':
                 continue
+            if self._in_handler(f, r.node):
+                continue        # a converting re-raise: accounted for by keeping the caught exception alive (below)
             if defensive_guard(r):
                 self.defensive.add(rkey(r))
                 continue
@@ -215,7 +331,7 @@ class Atom:
                         continue
                     W.setdefault(n, set()).add((nr, w))
             for k, r in self.raises.get(callee, {}).items():
-                if ef.caught(f, e.node, r.exc):
+                if ef.caught(f, e.node, r.exc) and not self._handler_reraises(f, e.node, r.exc):
                     continue
                 why = self._dead_at(f, e, r)
                 if why:
@@ -223,7 +339,8 @@ class Atom:
                     continue
                 R.setdefault(n, {})[k] = r
             for hk, (root, w, r) in self.hazards.get(callee, {}).items():
-                if ef.caught(f, e.node, r.exc):
+                self._callee_hz.setdefault(n, set()).add((hk[0].rsplit('|', 1)[0], r.exc))
+                if ef.caught(f, e.node, r.exc) and not self._handler_reraises(f, e.node, r.exc):
                     continue
                 if self._dead_at(f, e, r):
                     continue
@@ -238,11 +355,15 @@ class Atom:
                 for nr in new_roots:
                     if nr in ('fresh', 'const') or (isinstance(nr, tuple) and nr[0] == 'of'):
                         continue
-                    H[hk] = (nr, w, r)
+                    H[(hk[0].rsplit('|', 1)[0] + ('|arg' if isinstance(nr, tuple) else '|obj'), hk[1])] = (nr, w, r)
+        if f.qualname.split('@')[0] in STRUCTURE_FUNCS:
+            # duplication re-wires the matcher tree without changing what it holds (assumption, DESIGN.md R-ATOM)
+            W = {}
+            H = {}
         return W, R, H
 
     def _solve(self):
-        funcs = self.sm.functions
+        funcs = self.cg.all_functions()
         for _ in range(25):
             changed = False
             for f in funcs:
@@ -264,9 +385,18 @@ class Atom:
                             later |= g.reachable(m)
                         for n2, rs in R.items():
                             if n2 in later:
+                                handler = self._handler_between(f, n1, n2)
                                 for (root, w) in ws:
+                                    if handler is not None:
+                                        # n2 runs only if n1 raised something this handler catches: the write must belong to a
+                                        # callee hazard whose exception class the handler catches
+                                        names = ['*'] if handler.type is None else ([unparse(x) for x in handler.type.elts] if isinstance(handler.type, ast.Tuple) else [unparse(handler.type)])
+                                        ok = any(wk == wkey(w) and any(nm in ('*', 'Exception', 'BaseException') or exc_is_subclass(self.sm, exc, nm) for nm in names)
+                                                 for wk, exc in self._callee_hz.get(n1, ()))
+                                        if not ok:
+                                            continue
                                     for k, r in rs.items():
-                                        H.setdefault((wkey(w), k), (root, w, r))
+                                        H.setdefault((wkey(w) + ('|arg' if isinstance(root, tuple) else '|obj'), k), (root, w, r))
                 if wsum - self.writes[f]:
                     self.writes[f] |= wsum
                     changed = True
@@ -283,7 +413,7 @@ class Atom:
 
     # ------------------------------------------------------------------ result per entry
     def grouped(self, f: FuncInfo):
-        """hazards of f grouped by first write: write key -> (Write, sorted raise keys, RaiseSites)"""
+        """hazards of f grouped by first write: write key -> (Write, {raise key: RaiseSite}, roots)"""
         out = {}
         for (wk, rk), (root, w, r) in self.hazards.get(f, {}).items():
             d = out.setdefault(wk, (w, {}, set()))
